@@ -48,6 +48,18 @@ def main():
         pkgs = set()
         for d in demos:
             base = os.path.basename(d)
+            # layouts used by the sub-agents: <mutdir>/demo/<repo-relative path>, or <mutdir>/<pkg_with_underscores>/<file>
+            reld = os.path.relpath(os.path.dirname(d), mutdir)
+            direct = None
+            for cand in (re.sub(r"^demo/?", "", reld), reld.replace("_", "/"), re.sub(r"^demo/?", "", reld).replace("_", "/")):
+                if cand not in (".", "") and os.path.isdir(os.path.join(wt, cand)):
+                    direct = os.path.join(cand, base)
+                    break
+            if direct:
+                shutil.copy(d, os.path.join(wt, direct))
+                placed.append(direct)
+                pkgs.add("./" + os.path.dirname(direct))
+                continue
             txt = open(d).read() + "\n" + notes
             m = re.search(r"([\w./-]*/)" + re.escape(base), txt)
             rel = None
@@ -87,7 +99,7 @@ def main():
         os.makedirs(dst, exist_ok=True)
         shutil.copy(patch, os.path.join(dst, "patch.diff"))
         for d, rel in zip(demos, placed):
-            shutil.copy(d, os.path.join(dst, os.path.basename(d)))
+            shutil.copy(d, os.path.join(dst, rel.replace("/", "__")))
         if notes:
             open(os.path.join(dst, "notes.md"), "w").write(notes)
         first = [l for l in notes.splitlines() if l.strip()][:1]
@@ -96,7 +108,7 @@ def main():
             "source": "independent sub-agent given only the property text and a scratch worktree",
             "summary": first[0].lstrip("# ") if first else "",
             "needs_to_manifest": extract_needs(notes),
-            "demo_files": {os.path.basename(d): rel for d, rel in zip(demos, placed)},
+            "demo_files": {rel.replace("/", "__"): rel for d, rel in zip(demos, placed)},
             "confirmed": {"base_commit": subprocess.run(["git", "-C", "/repo", "rev-parse", "--short", "HEAD"], capture_output=True, text=True).stdout.strip(),
                           "ran": ["git apply patch.diff", "go build ./...", "go test -count=1 -vet=off ./...  (whole suite)", run + "  (with and without the patch)"],
                           **res},
